@@ -29,7 +29,17 @@ func JudgeAssignment(cl ClusterSpec, s SvcSpec, as []netip.Addr, pre Holders, ho
 	if !cl.Admits(*p, s) {
 		sig := "pool-does-not-admit"
 		if cl.NsSelMatchesNothing(*p) {
-			sig = "pool-does-not-admit:namespace-selectors-match-no-namespace"
+			// the known finding is identified by how the service came to the pool: on an explicit request / re-claim, or
+			// automatically through the pool's service selectors; an automatic draw from a pool without service
+			// selectors is a different failure
+			path := "explicit-request-or-reclaim"
+			if how == "Allocate" && !hadBefore {
+				path = "automatic-without-service-selectors"
+				if p.Alloc != nil && len(p.Alloc.SvcSel) > 0 {
+					path = "automatic-via-service-selectors"
+				}
+			}
+			sig = "pool-does-not-admit:namespace-selectors-match-no-namespace:" + path
 		}
 		return Violationf("pool-does-not-admit-service", "%s gave %s (ns %s labels %v) %v from pool %s whose serviceAllocation %+v does not admit it", how, s.Key(), s.NS, s.Labels, as, p.Name, *p.Alloc).WithSig(sig)
 	}
